@@ -191,9 +191,34 @@ def pred_job():
                opaque=('opensmt::Simplex', 'opensmt::LRAModel', 'opensmt::Tableau', 'opensmt::LABoundStore'), default_unwind=4, min_obligations=4, object_bits=12, timeout=900,
                bounded_note='model value and bounds drawn from 8 rationals (0, 1, -1, 2, -3, 1/2, -1/3, 7/4) in both components',
                proves='the model predicates asked by the pivot selection compare value and bound in Q_delta, infinitesimal part included')
+H_CS = '''void harness(void) {
+  g_conflicts = 0; g_saved = 0; g_restored = 0; g_x = E_UNDEF; g_y = E_UNDEF; g_y_for = E_UNDEF; g_lower_for = E_UNDEF; __osmt_thrown = 0;
+  x_std_vector_Simplex__ExplTerm r = Simplex__checkSimplex((struct Simplex *)0);
+  if (r.sz == 0) {
+    __CPROVER_assert(g_conflicts == 0 && g_x == E_UNDEF && g_saved && !g_restored, "consistent is answered only when no basic variable is left to fix; the assignment is then saved");
+  } else {
+    __CPROVER_assert(g_conflicts == 1 && g_cx == g_x && g_x != E_UNDEF, "the explanation is requested once, for the basic variable selected last");
+    __CPROVER_assert(g_y_for == g_x && g_y == E_UNDEF, "a conflict is reported only after the pivot selection found no variable for that row");
+    __CPROVER_assert(g_x_bland == g_y_bland, "the basic variable and the pivot variable are selected by the same rule");
+    __CPROVER_assert(g_lower_for == g_x && g_clower == g_lower_ans, "the explanation is built for the side on which the model says the variable is out of bounds");
+    __CPROVER_assert(g_restored_before_expl && !g_saved, "the last consistent assignment is restored before the explanation is built");
+  }
+  OSMT_REACH("return");
+}
+'''
+def cs_job():
+    return Job('checkSimplex.R', 'src/tsolvers/lasolver/Simplex.cc', 'opensmt::Simplex::checkSimplex', tier='R', header='contracts/C26/checksimplex.h', harness=H_CS, enforce=False, loop_contracts=True,
+               pre_includes=('stubs/gmp_types.h', 'stubs/std_types.h', 'contracts/C26/types.h'),
+               stubs=('opensmt::Simplex::processBufferOfActivatedBounds', 'opensmt::Tableau::getNumOfCols', 'opensmt::Simplex::getBasicVarToFixByBland', 'opensmt::Simplex::getBasicVarToFixByShortestPoly', 'opensmt::Simplex::refineBounds',
+                      'opensmt::LRAModel::saveAssignment', 'opensmt::Simplex::findNonBasicForPivotByBland', 'opensmt::Simplex::findNonBasicForPivotByHeuristic', 'opensmt::Simplex::isModelOutOfBounds', 'opensmt::Simplex::isModelOutOfLowerBound',
+                      'opensmt::LRAModel::restoreAssignment', 'opensmt::Simplex::getConflictingBounds', 'opensmt::Simplex::pivot'),
+               opaque=('opensmt::Simplex', 'opensmt::LRAModel', 'opensmt::Tableau', 'opensmt::LABoundStore'), min_obligations=5, timeout=900, object_bits=12,
+               # the iteration counter and the statistics counters may wrap after 2^32 / 2^64 iterations: intended modular arithmetic, havocked by the loop contract
+               expected_wrap=(('Simplex__checkSimplex', 'repeats'), ('Simplex__checkSimplex', 'num_bland_ops'), ('Simplex__checkSimplex', 'num_pivot_ops')),
+               proves='a conflict is reported for the row and the side for which the explanation is then built; the pivoting loop of any length')
 def jobs(tier):
     return [unb_job(), expl_job(4)] + ([expl_job(5)] if tier == 'thorough' else []) + [
-            piv_job('findNonBasicForPivotByBland', 'opensmt::Simplex::findNonBasicForPivotByBland'), piv_job('findNonBasicForPivotByHeuristic', 'opensmt::Simplex::findNonBasicForPivotByHeuristic'), ab_job(), se_job(), se_unb_job(), piv_unb_job(), piv_unb_job('findNonBasicForPivotByHeuristic'), pred_job()]
+            piv_job('findNonBasicForPivotByBland', 'opensmt::Simplex::findNonBasicForPivotByBland'), piv_job('findNonBasicForPivotByHeuristic', 'opensmt::Simplex::findNonBasicForPivotByHeuristic'), ab_job(), se_job(), se_unb_job(), piv_unb_job(), piv_unb_job('findNonBasicForPivotByHeuristic'), pred_job(), cs_job()]
 def info(tier, results):
     return {'level': 'proof', 'trusted_base': ['clang 14 AST', 'osmt2c lowering', 'CBMC 6.11 (dfcc loop contracts)'],
             'assumptions': ['in the unbounded job FastRational::isZero / isNegative / unary minus / copy on coefficients are by contract and coefficients are machine-word rationals other than INT_MIN (the GMP path is decided by the bounded job)', 'the tableau row of a basic variable x is the equation x = sum a_k*y_k over pairwise different non-basic variables with a_k != 0 (Tableau/Polynomial invariant, not verified)',
